@@ -10,3 +10,4 @@ import Spade.Properties.C05
 #print axioms Spade.C05_history_size
 #print axioms Spade.C05_model_new_handle_is_len
 #print axioms Spade.C05_model_keeps_handles
+#print axioms Spade.C05_model_remove_vertices
